@@ -75,7 +75,9 @@ def gen_case(rng, idx, heavy):
             elif rng.chance(1, 2):
                 lines.append('echo %d %d' % (rng.below(1 << 32), rng.choice([0, 3, 500, 40000] if not heavy else [0, 100, 1 << 20])))
             else:
-                lines.append('fail %d %s' % (rng.below(5), hx(''.join(rng.choice('xyz ü') for _ in range(rng.below(30))).encode())))
+                # short messages, and messages longer than one / several HTTP/2 DATA frames (16 KiB) and than the initial window (64 KiB)
+                mlen = rng.below(30) if rng.chance(2, 3) else rng.choice([16000, 16368, 16369, 16384, 20000, 70000, 300000])
+                lines.append('fail %d %s' % (rng.below(5), hx(''.join(rng.choice('xyz ü') for _ in range(mlen)).encode())))
     lines.append('end')
     return lines
 
